@@ -21,7 +21,7 @@ def sh(cmd, cwd=None, timeout=1800, env=None):
 def main():
     pid, var = sys.argv[1], sys.argv[2]
     checks = sys.argv[3].split(",") if len(sys.argv) > 3 and not sys.argv[3].startswith("--") else [pid]
-    src = "/tmp/mut/out-%s" % pid
+    src = "/tmp/mut/out%s-%s" % ("2" if var in ("C", "D") else "", pid)
     diff = os.path.join(src, var + ".diff")
     demo = os.path.join(src, var + "_demo_test.go")
     wt = "/tmp/mt-%s-%s" % (pid, var)
